@@ -34,6 +34,14 @@ CLAIMED = {
          "Trusted: petgraph::algo::toposort contract; rustc MIR. Consumers outside forc-pkg/forc-test/sway-lsp are not analysed.",
          "DESIGN.md §3 C22"),
 
+ "C08": ("E-TAB+E-MIR", "other", "syntax-tree table extraction over all 104 VirtualOp variants (operand-role SPEC / partition / AGREE / position-preserving rewrite / successor tables) + MIR rules on graph-query direction, pipeline wiring and the liveness equations",
+         "Decides that every register operand of every VirtualOp is classified read/written exactly as the FuelVM defines (spec/isa.txt), "
+         "that coalescing and final assignment map every operand position of the same variant in order, that successor tables never omit a "
+         "real edge, that the directed interference graph is only ever read undirected, that try_color wires liveness -> interference -> "
+         "coalescing -> colouring with the values it computed, and that liveness uses live_in = use ∪ (live_out − def) over successors. "
+         "Necessary conditions for 'no two simultaneously live registers share a machine register'; the colouring/spilling algorithm is not decided.",
+         "Trusted: syn; rustc MIR; petgraph; spec/isa.txt written from the FuelVM ISA and fuel-asm/fuel-vm 0.66.4.",
+         "DESIGN.md §3 C08"),
  "C16": ("E-MIR", "other", "MIR call-graph cone + panic-site enumeration with guard idioms; Span constructor encapsulation; char-boundary provenance (backward slices, inter-procedural through params/captures) of every offset handed to the lexer's span constructors",
          "Decides: every potentially panicking MIR construct reachable from lex / lex_commented / parse_file / parse_module_kind is "
          "discharged by a machine-checked idiom or a reviewed exactly-keyed site (any new site alarms); Span values can only be built "
